@@ -878,8 +878,15 @@ class Models(Structural):
                              patterns=[m(r_)]))
             c.assumed.append('numpy.max/min(axis)')
             c.cache[key] = m
+            c.cache[('ext2-wit',) + key[1:]] = w
         m = c.cache[key]
         return CArr.from_fn(lambda r: N(m(T.to_int_term(r))), (n_oth,), x.dtype)
+
+    def extreme_witness(self, x, axis, is_max):
+        """Index (per row) at which the max/min along `axis` of a 2-d closure array is attained (proof hint for contracts)."""
+        self._extreme2(x, axis, is_max)
+        w = ctx().cache[('ext2-wit', is_max, axis, A.canon_key(A.to_carr(x)))]
+        return lambda r: N(w(T.to_int_term(r)))
 
     @reg('numpy.max', 'numpy.amax')
     def np_max(self, x, axis=None):
